@@ -14,6 +14,8 @@ Case language (case.ops):
   call nd <id> <T> | call seq <csv> <T>   Gamma(x, T)
   f <id> <T>                           Gamma.f(x, T, *Gamma.args)
   gd <csv x> <T> <csv d> <h>           Gibbs–Duhem probe: Gamma at x±h·d (two `call seq` lines for the model)
+  ac <csv x_sub> <T>                   Gamma.activity_coefficients(x_sub, T): the kernels without gather/scatter
+  gdac <csv x_sub> <T> <csv d> <h>     Gibbs–Duhem probe through activity_coefficients (two `ac` lines for the model)
   phi <csv y> <T> <P> | pcf <T> <P> | idealf
 Floats travel as `b<bits>`.
 """
@@ -101,8 +103,8 @@ def setup():
 
 
 def budget(tier):
-    return {'quick': dict(seconds=70, cases=160, shrink_s=20, search_s=10),
-            'thorough': dict(seconds=420, cases=4000, shrink_s=40, search_s=30)}[tier]
+    return {'quick': dict(seconds=70, cases=1600, shrink_s=20, search_s=10),
+            'thorough': dict(seconds=420, cases=24000, shrink_s=40, search_s=30)}[tier]
 
 
 # --------------------------------------------------------------------------
@@ -304,6 +306,29 @@ class Session:
             self.emit(line, f'g={csv(shown)} fresh={1 if fresh else 0} x={csv(after)}')
         return g
 
+    def eval_ac(self, i, xs, T, line):
+        """`Gamma.activity_coefficients(x, T)` (public method of the group-contribution classes)"""
+        G = self.G
+        if not hasattr(G, '_index') or len(xs) != len(G._index): return None
+        x = np.array(xs, float); before = x.copy()
+        res = G.activity_coefficients(x, T)
+        g = np.array(res, float, copy=True)
+        label = f'{self.kind}/activity_coefficients'
+        if not same_bits(before, x):
+            self.fail(f'x-modified:{label}', f'{type(G).__name__}{self.names}.activity_coefficients changed x from {before.tolist()} to {x.tolist()}', i)
+        if len(g) != len(before) or not np.all(np.isfinite(g)) or not np.all(g > 0):
+            self.fail(f'nonfinite:{label}', f'{type(G).__name__}{self.names}.activity_coefficients x={before.tolist()} T={T}: {g.tolist()}', i)
+        elif np.count_nonzero(before) == 1 and before.max() == 1.0:
+            j = int(before.argmax())
+            if not abs(g[j] - 1.0) <= 1e-12:
+                self.fail(f'pure-limit:{label}', f'{type(G).__name__}{self.names}.activity_coefficients at x={before.tolist()}: gamma={g[j]!r} (must be 1)', i)
+        if args_changed(G, self.snap):
+            self.fail(f'args-modified:{label}', f'{type(G).__name__}{self.names}: an array of Gamma.args (other than group_psis) was written', i)
+            self.snap = snapshot_args(G)
+        self.group_evals += 1
+        self.emit(line, f'g={csv(g)} fresh=1 x={csv(x)}')
+        return g
+
     # -- ops -----------------------------------------------------------------------
     def apply(self, i, op):
         t = op.split(' ')
@@ -353,6 +378,22 @@ class Session:
                     self.fail(f'gibbs-duhem:{label}',
                               f'{type(self.G).__name__}{self.names} x={x.tolist()} T={T} direction={d.tolist()} h={h}: '
                               f'sum x_i dln(gamma_i)/ds = {r:.3e} (scale {s:.3e}); central differences', i)
+        elif k == 'ac':
+            self.tags.add('activity_coefficients')
+            self.eval_ac(i, fl(t[1]), from_fbits(t[2]), op)
+        elif k == 'gdac':
+            x = np.array(fl(t[1])); T = from_fbits(t[2]); d = np.array(fl(t[3])); h = from_fbits(t[4])
+            xp, xm = (x + h * d).tolist(), (x - h * d).tolist()
+            gp = self.eval_ac(i, xp, T, f'ac {csv(xp)} {t[2]}')
+            gm = self.eval_ac(i, xm, T, f'ac {csv(xm)} {t[2]}')
+            self.tags.add('gibbs-duhem-probe-ac')
+            if gp is not None and gm is not None and np.all(gp > 0) and np.all(gm > 0):
+                dl = (np.log(gp) - np.log(gm)) / (2 * h)
+                r = float((x * dl).sum()); s = float((x * np.abs(dl)).sum())
+                if not abs(r) <= 2e-6 * (1.0 + s):
+                    self.fail(f'gibbs-duhem:{self.kind}/activity_coefficients',
+                              f'{type(self.G).__name__}{self.names}.activity_coefficients x={x.tolist()} T={T} '
+                              f'direction={d.tolist()} h={h}: sum x_i dln(gamma_i)/ds = {r:.3e} (scale {s:.3e}); central differences', i)
         elif k == 'phi':
             y = np.array(fl(t[1])); T = from_fbits(t[2]); P = from_fbits(t[3])
             chems = tuple(POOL[n] for n in GROUPED[:len(y)])
@@ -384,7 +425,7 @@ def run_impl(case: Case) -> ImplResult:
     setup()
     S = Session()
     for i, op in enumerate(case.ops):
-        if S.G is None and op.split(' ')[0] in ('new', 'call', 'f', 'gd'):
+        if S.G is None and op.split(' ')[0] in ('new', 'call', 'f', 'gd', 'ac', 'gdac'):
             if op.startswith('new'):
                 S.apply(i, op)
             continue        # (shrinking may drop the obj line: evaluations without an object are skipped)
@@ -516,6 +557,12 @@ def gen_case(rng, tier, kind=None, names=None):
             ops.append(f'new {csv(x)}'); ops.append(f'f {nid} {fbits(Tx)}'); ops.append(f'call nd {nid} {fbits(Tx)}'); nid += 1
     for _ in range(rng.randrange(1, 3)):
         ops.append(gd_op(rng, n, rand_T(rng)))
+    ng = sum(1 for m in names if m in GROUPED)        # members with groups (for every class of the pool)
+    if kind != 'I' and ng >= 2:
+        i0 = rng.randrange(ng)
+        ops.append(f'ac {csv([1.0 if j == i0 else 0.0 for j in range(ng)])} {fbits(T)}')
+        ops.append(f'ac {csv(simplex_point(rng, ng, rng.choice(["uniform", "trace", "sparse"])))} {fbits(rand_T(rng))}')
+        ops.append('gdac ' + gd_op(rng, ng, rand_T(rng))[3:])
     # permuted tuples at the permuted compositions
     perms = list(itertools.permutations(range(n))) if n <= 4 else None
     if perms is not None and tier == 'thorough' and rng.random() < 0.3:
